@@ -1,4 +1,5 @@
 INIT Init
+CHECK_DEADLOCK FALSE
 NEXT Next
 CONSTANTS MaxRows = 3
           MaxLen = 2
@@ -6,5 +7,6 @@ CONSTANTS MaxRows = 3
           RK2 <- RK2Std
           CK1 <- CK1Std
           CK2 <- CK2Std
+          DefOnMany = {"-", "all"}
 INVARIANT SpecSane
 INVARIANT RejectSane
